@@ -193,6 +193,68 @@ func c08Run(cs c08Case) (clause, detail string, emits int) {
 	return "", "", len(want)
 }
 
+// c08LongCascade: what a crew reports for a long cascade of re-injected emissions (one emission per walk, also
+// two per walk, plus a machine that emits and then fails): batch by batch exactly what each walk emitted.
+func c08LongCascade(c *vh.Ctx) {
+	mk := func(src string) *core.Spec {
+		return &core.Spec{Name: "cascade", Nodes: map[string]*core.Node{
+			"start": {Branches: &core.Branches{Type: "message", Branches: []*core.Branch{{Pattern: map[string]interface{}{"tick": "?n"}, Target: "act"}}}},
+			"act":   {ActionSource: &core.ActionSource{Interpreter: "ecmascript", Source: src}, Branches: &core.Branches{Branches: []*core.Branch{{Target: "start"}}}},
+		}}
+	}
+	one := `var n = _.bindings["?n"]; if (n > 0) { _.out({to: "m", tick: n - 1}); } return {};`
+	two := `var n = _.bindings["?n"]; if (n > 0) { _.out({to: "m", tick: n - 1}); _.out({to: "nobody", note: n}); } return {};`
+	failing := `var n = _.bindings["?n"]; _.out({to: "m", tick: 99, from: "the machine that fails"}); throw "boom";`
+	for _, variant := range []string{"one", "two"} {
+		for _, n := range []int{3, 10, 17, 33, 40, 70, 130} {
+			c.Eval()
+			c.Nontrivial()
+			src := one
+			if variant == "two" {
+				src = two
+			}
+			ctx := context.Background()
+			nc := &nullCouplings{in: make(chan interface{}, 8), out: make(chan *sio.Result, 8)}
+			cr, err := sio.NewCrew(ctx, &sio.CrewConf{Id: "t", Ctl: &core.Control{Limit: 100}}, nc)
+			if err != nil {
+				c.NotExhaustive("crew: " + err.Error())
+				return
+			}
+			cr.SetMachine(ctx, "m", &crew.SpecSource{Inline: mk(src)}, nil)
+			cr.SetMachine(ctx, "f", &crew.SpecSource{Inline: mk(failing)}, nil)
+			var r *sio.Result
+			if p, pm, where := vh.Trap(func() { r, err = cr.ProcessMsg(ctx, M{"to": []interface{}{"m", "f"}, "tick": float64(n)}) }); p {
+				c.Violation("C08/panic/long-cascade/"+where, pm, M{"long_cascade": variant, "n": n})
+				continue
+			}
+			if err != nil {
+				c.Violation("C08/long-cascade-error", err.Error(), M{"long_cascade": variant, "n": n})
+				continue
+			}
+			var want [][]interface{}
+			for k := n - 1; k >= 0; k-- {
+				b := []interface{}{M{"to": "m", "tick": float64(k)}}
+				if variant == "two" {
+					b = append(b, M{"to": "nobody", "note": float64(k + 1)})
+				}
+				want = append(want, b)
+			}
+			got := rstep.Canon(r.Emitted)
+			wantS := rstep.Canon(want)
+			if got != wantS {
+				c.Violation("C08/emitted-crew/long-cascade-"+variant, fmt.Sprintf("a cascade of %d walks (%s emission(s) per walk, next to a machine that emits and then fails): the crew reported %s; the walks emitted, batch by batch, %s", n, variant, clipStr(got, 400), clipStr(wantS, 400)), M{"long_cascade": variant, "n": n})
+			}
+		}
+	}
+}
+
+func clipStr(s string, n int) string {
+	if len(s) > n {
+		return s[:n] + "..."
+	}
+	return s
+}
+
 func c08One(c *vh.Ctx, cs c08Case) {
 	c.Eval()
 	clause, detail, n := c08Run(cs)
@@ -230,11 +292,21 @@ func c08One(c *vh.Ctx, cs c08Case) {
 // C08: emission is atomic.
 func C08(c *vh.Ctx) {
 	if c.Replay != "" {
+		var probe struct {
+			Long string `json:"long_cascade"`
+		}
+		if c.LoadReplay(&probe) == nil && probe.Long != "" {
+			c08LongCascade(c)
+			return
+		}
 		var cs c08Case
 		if c.LoadReplay(&cs) == nil {
 			c08One(c, cs)
 		}
 		return
+	}
+	if c.Shard == 0 {
+		c08LongCascade(c)
 	}
 	maxLen := c.Pick(4, 5)
 	progs := c08Programs(maxLen)
@@ -242,7 +314,7 @@ func C08(c *vh.Ctx) {
 	if c.Shard == 0 {
 		c.Count("programs", int64(len(progs)))
 	}
-	c.Rule("every ECMAScript program = prefix over {emit m1, emit m2, set} (for programs of up to 3 operations m2 also ranges over 10 message shapes: maps with an emit / to / error key, strings, numbers, arrays, empty and nested maps, booleans) (any order, up to the bound) optionally ended by one of {throw a string, throw an object with properties, throw an Error, throw null, return scalar, return array, loop until cancelled (cancel delivered at tick 3 through the harness context), emit an unserialisable value, return null}; placed as the action at position 1, 2 or 3 of a chain of three emitting actions, or as the guard between them; error routing none / ActionErrorNode / ActionErrorBranches (the handler emits and resumes the chain); observed through Spec.Walk (per-stride Emitted and DoEmitted) and through sio.Crew.ProcessMsg (Result.Emitted); oracle: emitted == concatenation of the emits of the successfully completed actions in execution order. non-trivial = program emits and then fails.")
+	c.Rule("every ECMAScript program = prefix over {emit m1, emit m2, set} (for programs of up to 3 operations m2 also ranges over 10 message shapes: maps with an emit / to / error key, strings, numbers, arrays, empty and nested maps, booleans) (any order, up to the bound) optionally ended by one of {throw a string, throw an object with properties, throw an Error, throw null, return scalar, return array, loop until cancelled (cancel delivered at tick 3 through the harness context), emit an unserialisable value, return null}; placed as the action at position 1, 2 or 3 of a chain of three emitting actions, or as the guard between them; error routing none / ActionErrorNode / ActionErrorBranches (the handler emits and resumes the chain); observed through Spec.Walk (per-stride Emitted and DoEmitted) and through sio.Crew.ProcessMsg (Result.Emitted); oracle: emitted == concatenation of the emits of the successfully completed actions in execution order. Plus long cascades through a crew (3 to 130 walks, one or two emissions per walk, next to a machine that emits and then fails): Result.Emitted must be, batch by batch, what each walk emitted. non-trivial = program emits and then fails.")
 	var idx uint64
 	for _, p := range progs {
 		for pos := 0; pos <= 3; pos++ {
